@@ -38,6 +38,11 @@ pub fn operand_pool() -> &'static Vec<String> {
         for s in ["(-0)", "(1/0)", "(-1/0)", "(0/0)", "pi", "π", "e", "@", "(-@)"] {
             v.push(s.to_string());
         }
+        // literals whose text is not what Display would print: integer parts that are exact rounding ties with a fraction
+        // that breaks the tie, redundant zeros, more digits than a double holds
+        for s in ["10000000000000001.5", "9007199254740993.5", "18014398509481986.25", "9007199254740993.0000000000000000000000001", "0.1000000000000000055511151231257827021181583404541015625", "00000000000000000000000002.50", "1.00000000000000011102230246251565404236316680908203125", "1.00000000000000011102230246251565404236316680908203126"] {
+            v.push(s.to_string());
+        }
         // literals that overflow / underflow while lexing
         v.push("9".repeat(400));
         v.push(format!("1{}", "0".repeat(308)));
@@ -105,17 +110,19 @@ impl Prop for C05Prop {
         "C05"
     }
     fn rule(&self) -> String {
-        "Well-formed eval_f64 expressions over exactly C05's list (+ - * / % ^ pow mod, unary minus, abs floor ceil trunc round sqrt, ⌊⌋ ⌈⌉, pi, e). Exhaustive: every unary form x boundary pool (0, -0, 0.1, halves, 0.49999999999999994, 2^52/2^53 neighbours, 1e22/1e23, huge/tiny, 309/400-digit literals that overflow, 324-digit literals that underflow, 1/0, -1/0, 0/0, @) and every binary operator x pool^2, with every f64 placeholder; random trees of depth <=6 beyond. Oracle: Rust/IEEE operation applied node by node to the reference parse; compared on bit patterns (NaNs identified); outcome must be Ok. non-trivial = >=2 operator nodes and (a non-integer or boundary operand, or an inexact/non-finite result); distinct by (input, placeholder).".into()
+        "Well-formed eval_f64 expressions over exactly C05's list (+ - * / % ^ pow mod, unary minus, abs floor ceil trunc round sqrt, ⌊⌋ ⌈⌉, pi, e). Exhaustive: every unary form x boundary pool (0, -0, 0.1, halves, 0.49999999999999994, 2^52/2^53 neighbours, 1e22/1e23, huge/tiny, 309/400-digit literals that overflow, 324-digit literals that underflow, 1/0, -1/0, 0/0, @) and every binary operator x pool^2, with every f64 placeholder; long flat chains of 2..512 operands per operator (0.1+0.2+0.2…, 1e16+1.0+…: the left-to-right rounding sequence is the specification); random trees of depth <=6 beyond. Oracle: Rust/IEEE operation applied node by node to the reference parse; compared on bit patterns (NaNs identified); outcome must be Ok. non-trivial = >=2 operator nodes and (a non-integer or boundary operand, or an inexact/non-finite result); distinct by (input, placeholder).".into()
     }
     fn subs(&self, tier: Tier) -> Vec<Sub> {
         vec![
             Sub { name: "unary", kind: SubKind::Enum { count: unary_cases().len() as u64 } },
             Sub { name: "binary", kind: SubKind::Enum { count: binary_cases().len() as u64 } },
+            Sub { name: "long", kind: SubKind::Enum { count: super::long::all(true).iter().filter(|x| x.0 == Ev::F64).count() as u64 } },
             Sub { name: "tree", kind: SubKind::Random { cases: tier.pick(1_000_000, 50_000_000), len: 160 } },
         ]
     }
     fn gen_enum(&self, sub: &str, idx: u64, _tier: Tier) -> Option<Case> {
         let s = match sub {
+            "long" => super::long::all(true).iter().filter(|x| x.0 == Ev::F64).nth(idx as usize)?.1.clone(),
             "unary" => unary_cases().get(idx as usize)?.clone(),
             _ => binary_cases().get(idx as usize)?.clone(),
         };
